@@ -848,7 +848,9 @@ def _run_track_case(case) -> CaseResult:
                 if beh == 'silent':
                     in_flight = t_end < t_last - lat + ANSWER_TIMEOUT + 0.01
                 else:
-                    in_flight = t_end < t_last + lat + d_last + 0.01
+                    # an answer that the glueing server still holds back when the case ends has no recorded delay yet
+                    held = (norm.get('glue') or {}).get('w', 0.0)
+                    in_flight = t_end < t_last + lat + max(d_last, held) + 0.01
                 if in_flight:
                     labels.add('final-state-check-skipped:answer-in-flight')
                 else:
